@@ -5,6 +5,8 @@ go 1.22
 require (
 	github.com/deckarep/golang-set/v2 v2.6.0
 	github.com/karagenc/socket.io-go v0.0.0
+	github.com/quic-go/webtransport-go v0.8.0
+	github.com/sasha-s/go-deadlock v0.3.1
 	nhooyr.io/websocket v1.8.11
 )
 
@@ -14,9 +16,9 @@ require (
 	github.com/karagenc/yeast v0.1.1 // indirect
 	github.com/mattn/go-colorable v0.1.13 // indirect
 	github.com/mattn/go-isatty v0.0.20 // indirect
+	github.com/petermattis/goid v0.0.0-20240716203034-badd1c0974d6 // indirect
 	github.com/quic-go/qpack v0.4.0 // indirect
 	github.com/quic-go/quic-go v0.45.2 // indirect
-	github.com/quic-go/webtransport-go v0.8.0 // indirect
 	github.com/xiegeo/coloredgoroutine v0.1.1 // indirect
 	golang.org/x/crypto v0.25.0 // indirect
 	golang.org/x/exp v0.0.0-20240719175910-8a7402abbf56 // indirect
